@@ -250,6 +250,19 @@ def jobs(tier):
           unwind=UB, timeout=600, mem_gb=10, assumed=[SB], defs=["-DSB_B0=" + b0, "-DSB_B1=" + b1])
     J("canary.iint.iintTimes", "h_iintTimes_schoolbook", ["iintTimes"], st("a") + st("b") + st("r"), cls="B", kind="canary",
       bound="operands <= 2 digits", unwind=UB + ["--stop-on-fail"], timeout=900, mem_gb=10, defs=["-DCANARY_iintTimes", "-DV_NO_VREACH", "-DSB_B0=0xFFFFFFFFU", "-DSB_B1=0U"])
+    # quotient/remainder identity on the real iintDivide for constant two-digit divisors
+    DVS = [("80000000_ffffffff", "0xFFFFFFFFU", "0x80000000U"),      # top digit >= B/2: no normalisation (d = 1)
+           ("00000001_00000000", "0x00000000U", "0x00000001U"),      # b = 2^32: largest normalisation factor
+           ("12345678_9abcdef1", "0x9ABCDEF1U", "0x12345678U"),
+           ("ffffffff_ffffffff", "0xFFFFFFFFU", "0xFFFFFFFFU"),
+           ("00000003_00000007", "0x00000007U", "0x00000003U")]
+    for tag, b0, b1 in (DVS if tier == "thorough" else DVS[:2]):
+        J("iint.iintDivide.identity.b_%s" % tag, "h_iintDivide_const", ["iintDivide", "iintTimesS", "bintLT"],
+          st("u") + st("v") + st("q") + st("r"), cls="B",
+          bound="dividend 2..3 digits (every value), divisor the constant 0x%s" % tag.replace("_", ""), unwind=UB, timeout=900, mem_gb=12,
+          defs=["-DDV_B0=" + b0, "-DDV_B1=" + b1])
+    J("canary.iint.iintDivide", "h_iintDivide_const", ["iintDivide"], st("u") + st("v") + st("q") + st("r"), cls="B", kind="canary",
+      unwind=UB + ["--stop-on-fail"], timeout=900, mem_gb=12, defs=["-DCANARY_iintDivide", "-DV_NO_VREACH"])
     if PROBE:       # a symbolic 32x32-bit digit product: no result on SAT or z3 (900 s)
         J("iint.iintTimes.schoolbook", "h_iintTimes_schoolbook", ["iintTimes"], st("a") + st("b") + st("r"), cls="B",
           bound="operands <= 2 digits (64 bits) each", unwind=UB + ["--z3"], timeout=900, mem_gb=10, assumed=[SB])
